@@ -19,7 +19,9 @@ import (
 	"math"
 	"strings"
 
+	"gonum.org/v1/gonum/blas"
 	"gonum.org/v1/gonum/blas/blas64"
+	"gonum.org/v1/gonum/lapack/lapack64"
 	"gonum.org/v1/gonum/mat"
 
 	"gonum.org/v1/gonum/verifharness/internal/core"
@@ -200,7 +202,13 @@ func build(r rep, s []float64) (mat.Matrix, error) {
 		}
 		return mat.NewTriDense(n+r.P+1, kind, s).SliceTri(r.P, r.P+n), nil
 	case "Band", "BasicBand":
-		d := mat.NewBandDense(r.R, r.C, r.P, r.Q, s)
+		var d *mat.BandDense
+		if r.Kind == "Band" && r.P == 0 && r.Q == 0 {
+			// documented as NewBandDense(r, c, 0, 0, data)
+			d = mat.NewDiagonalRect(r.R, r.C, s)
+		} else {
+			d = mat.NewBandDense(r.R, r.C, r.P, r.Q, s)
+		}
 		if r.Kind == "BasicBand" {
 			return basicBand{d}, nil
 		}
@@ -211,6 +219,44 @@ func build(r rep, s []float64) (mat.Matrix, error) {
 		return mat.NewTriBandDense(n, r.P, mat.Upper, s), nil
 	case "TriBandL":
 		return mat.NewTriBandDense(n, r.P, mat.Lower, s), nil
+	// the kinds ending in S: a zero value given its storage through the SetRaw* method, band storage
+	// with a row stride one larger than the band width
+	case "BandS":
+		rows := r.R
+		if r.C+r.P < rows {
+			rows = r.C + r.P
+		}
+		if err := need(rows * (r.P + r.Q + 2)); err != nil {
+			return nil, err
+		}
+		var d mat.BandDense
+		d.SetRawBand(blas64.Band{Rows: r.R, Cols: r.C, KL: r.P, KU: r.Q, Stride: r.P + r.Q + 2, Data: s})
+		return &d, nil
+	case "SymBandS":
+		if err := need(n * (r.P + 2)); err != nil {
+			return nil, err
+		}
+		var d mat.SymBandDense
+		d.SetRawSymBand(blas64.SymmetricBand{N: n, K: r.P, Stride: r.P + 2, Uplo: blas.Upper, Data: s})
+		return &d, nil
+	case "TriBandUS", "TriBandLS":
+		if err := need(n * (r.P + 2)); err != nil {
+			return nil, err
+		}
+		ul := blas.Upper
+		if r.Kind == "TriBandLS" {
+			ul = blas.Lower
+		}
+		var d mat.TriBandDense
+		d.SetRawTriBand(blas64.TriangularBand{N: n, K: r.P, Stride: r.P + 2, Uplo: ul, Diag: blas.NonUnit, Data: s})
+		return &d, nil
+	case "TridiagS":
+		if err := need(3*n - 2); err != nil {
+			return nil, err
+		}
+		var d mat.Tridiag
+		d.SetRawTridiagonal(lapack64.Tridiagonal{N: n, DL: s[: n-1 : n-1], D: s[n-1 : 2*n-1 : 2*n-1], DU: s[2*n-1:]})
+		return &d, nil
 	case "Diag":
 		return mat.NewDiagDense(n, s), nil
 	case "DiagOfDense":
@@ -347,7 +393,7 @@ func call(c *rcase, recv mat.Matrix, a []mat.Matrix) result {
 		recv.(*mat.Dense).RankOne(a[0], al, vecArg(a, 1), vecArg(a, 2))
 	case "Outer":
 		recv.(*mat.Dense).Outer(al, vecArg(a, 0), vecArg(a, 1))
-	case "Product":
+	case "Product", "Product1", "Product2", "Product4":
 		recv.(*mat.Dense).Product(a...)
 	case "DivElem":
 		recv.(*mat.Dense).DivElem(a[0], a[1])
@@ -427,6 +473,9 @@ func call(c *rcase, recv mat.Matrix, a []mat.Matrix) result {
 		return result{m: recv, ret: []int{r, cc}}
 	case "InverseTri":
 		return result{m: recv, err: recv.(*mat.TriDense).InverseTri(triArg(a, 0))}
+	// ---- DiagDense receiver
+	case "DiagFrom":
+		recv.(*mat.DiagDense).DiagFrom(a[0])
 	case "Det":
 		return scalar(mat.Det(a[0]))
 	// ---- functions
@@ -444,6 +493,15 @@ func call(c *rcase, recv mat.Matrix, a []mat.Matrix) result {
 		return scalar(mat.Norm(a[0], math.Inf(1)))
 	case "Equal":
 		if mat.Equal(a[0], a[1]) {
+			return scalar(1)
+		}
+		return scalar(0)
+	case "EqualApprox": // n1 div 2: 0 -> eps = 1/128, 1 -> eps = 100 (as the specification says)
+		eps := 1.0 / 128
+		if c.N1/2 == 1 {
+			eps = 100
+		}
+		if mat.EqualApprox(a[0], a[1], eps) {
 			return scalar(1)
 		}
 		return scalar(0)
@@ -470,7 +528,9 @@ func family(op string) string {
 		return "Sym"
 	case "ScaleTri", "MulTri", "CopyTri", "InverseTri":
 		return "Tri"
-	case "Det", "Sum", "Max", "Min", "Trace", "Norm1", "NormInf", "Equal", "Dot", "Inner", "Row", "Col":
+	case "DiagFrom":
+		return "Diag"
+	case "Det", "Sum", "Max", "Min", "Trace", "Norm1", "NormInf", "Equal", "EqualApprox", "Dot", "Inner", "Row", "Col":
 		return "Func"
 	}
 	return "Dense"
@@ -490,6 +550,8 @@ func receiver(c *rcase, store []float64) (mat.Matrix, error) {
 			return &mat.VecDense{}, nil
 		case "Sym":
 			return &mat.SymDense{}, nil
+		case "Diag":
+			return &mat.DiagDense{}, nil
 		default:
 			return &mat.TriDense{}, nil
 		}
@@ -508,6 +570,8 @@ func receiver(c *rcase, store []float64) (mat.Matrix, error) {
 		_, ok = m.(*mat.SymDense)
 	case "Tri":
 		_, ok = m.(*mat.TriDense)
+	case "Diag":
+		_, ok = m.(*mat.DiagDense)
 	}
 	if !ok {
 		return nil, fmt.Errorf("receiver representation %s built a %T, not a %sDense", c.Recv.Rep.Kind, m, fam)
